@@ -494,7 +494,8 @@ impl Pos {
 /// A small family present at every lattice point: extremes, middle, duplicates, unsorted,
 /// positions colliding after one and after two foldings, a whole coset, and a full channel draw.
 pub fn positions_small(domain: usize, folding: usize) -> Vec<Pos> {
-    let row = domain / folding;
+    // folding may exceed the domain on remainder-only points; the families then degenerate
+    let row = (domain / folding).max(1);
     let mut v = vec![
         Pos::Explicit(vec![0]),
         Pos::Explicit(vec![domain - 1]),
@@ -511,6 +512,12 @@ pub fn positions_small(domain: usize, folding: usize) -> Vec<Pos> {
         v.push(Pos::Explicit(vec![1 % (row / folding), 1 % (row / folding) + row / folding]));
     }
     v.push(Pos::Explicit(vec![domain - 1, domain / 2, domain / 2, 0, 1]));
+    for p in v.iter_mut() {
+        if let Pos::Explicit(l) = p {
+            l.retain(|x| *x < domain);
+        }
+    }
+    v.retain(|p| !matches!(p, Pos::Explicit(l) if l.is_empty()));
     let mut seen = BTreeSet::new();
     v.retain(|p| seen.insert(p.clone()));
     v
@@ -646,9 +653,6 @@ impl Reject {
             Reject::Verify(e) => ("verify", format!("{e:?}")),
         };
         format!("{p}:{}", s.split('(').next().unwrap())
-    }
-    pub fn is_remainder_commitment(&self) -> bool {
-        matches!(self, Reject::New(VerifierError::RemainderCommitmentMismatch) | Reject::Verify(VerifierError::RemainderCommitmentMismatch))
     }
 }
 
